@@ -65,7 +65,7 @@ def pretendRequested (argv : List Bytes) : Bool :=
     else if t == b!"-p=false" || t == b!"--p=false" then false else acc) false
 
 def handle (op : String) (j : Json) : Option Json :=
-  if op != "binscn" && op != "binovl" then none else
+  if op != "binscn" && op != "binovl" && op != "binman" then none else
   match "binscn" with
   | "binscn" =>
     let cfg := getCfg (getObj j "cfg")
@@ -76,7 +76,8 @@ def handle (op : String) (j : Json) : Option Json :=
       (acc.1 ++ [o], w)) ([], w0)
     -- "binovl": scenarios with a real overlay mount; the merged view is not modelled, so the
     -- model side is not compared (oracle only)
-    let model := if op == "binovl" then getObj j "impl" else obj [("steps", Json.arr outs.toArray)]
+    -- "binman": hand-made mounts between the commands; oracle only as well
+    let model := if op == "binovl" || op == "binman" then getObj j "impl" else obj [("steps", Json.arr outs.toArray)]
     let implSteps := getArr (getObj j "impl") "steps"
     let prop := getStr j "prop"
     -- oracles on the implementation's observations
@@ -99,12 +100,36 @@ def handle (op : String) (j : Json) : Option Json :=
           if cls == "ok" then some "umount with neither a layer nor -all reported success"
           else if !unchanged then some "umount with neither a layer nor -all changed something"
           else none
+        else if prop == "C03" && op == "binman" && words.length == 2 && (words.headD [] == b!"umount") then
+          -- an idle base layer (these scenarios have no derived layers and no processes in
+          -- the build root): umount must clear everything at or below its build root
+          let build := pathJoin [cfg.layerdirs, words.getD 1 [], cfg.buildRoot]
+          let below := fun (mj : Json) => (match mj with | Json.arr a => a.toList | _ => []).filterMap fun x =>
+            match x with
+            | Json.str h => let p := fromHex h; if Fs.under build p then some p else none
+            | _ => none
+          let pre := below preM
+          let post := below (getObj ob "mps")
+          -- a mountpoint listed twice (stacked by hand) with another mountpoint below it: the
+          -- lower mount's children are hidden and cannot be unmounted before the upper one
+          let hiddenRegion := pre.any fun d => (pre.filter (· == d)).length > 1 && pre.any fun q => q != d && Fs.under d q
+          if pre.isEmpty then none
+          else if cls == "ok" && !post.isEmpty then some "umount reported success but mounts remain below the build root"
+          else if cls != "ok" then
+            some (if hiddenRegion then "KNOWN:umount-order-hidden-submount" else "umount of an idle layer failed")
+          else none
         else none
       (verdict, (getObj ob "tree", getObj ob "mps"))) (none, init)
     let tags := (steps.map fun argv => (if pretendRequested argv then "bin:-p:" else "bin:") ++
         toStringLossy ((argv.filter fun t => t.head? != some 45).headD b!"(none)")).eraseDups
     match bad with
-    | some why => some (obj [("model", model), ("holds", Json.bool false), ("why", Json.str why),
+    | some why =>
+      if why == "KNOWN:umount-order-hidden-submount" then
+        some (obj [("model", model), ("holds", Json.bool false), ("finding", Json.str "umount-order-hidden-submount"),
+                   ("why", Json.str "umount of an idle layer fails: mountpoints are unmounted in descending path order, which meets a submount hidden below a mount stacked on its ancestor"),
+                   ("tags", Json.arr (tags.map Json.str).toArray)])
+      else
+      some (obj [("model", model), ("holds", Json.bool false), ("why", Json.str why),
                              ("tags", Json.arr (tags.map Json.str).toArray)])
     | none => some (obj [("model", model), ("holds", Json.bool true), ("tags", Json.arr (tags.map Json.str).toArray)])
   | _ => none
